@@ -2,7 +2,7 @@
 # usage: tools/try_mutant.sh <seeded dir> <check args...>   -- applies the patch to /repo, runs ./check, reverts
 D="$(cd "$1" && pwd)"; shift
 cd /verif
-git -C /repo apply "$D/patch.diff" || { echo "PATCH DOES NOT APPLY"; exit 2; }
+P="$D/patch.diff"; [ -f "$D/patch_on_fixed.diff" ] && P="$D/patch_on_fixed.diff"; git -C /repo apply "$P" || { echo "PATCH DOES NOT APPLY"; exit 2; }
 ./check "$@" --no-evidence 2>&1 | grep -v "^  File\|^    \|^Trace\|^$" | cut -c1-400 | head -${LINES_MAX:-12}
 git -C /repo checkout -- . 
 git -C /repo status --short | head -3
